@@ -9,7 +9,7 @@ NEEDS = ["acc_close_to_zero_abs_tol", "dist_close_to_zero_abs_tol"]   # the seco
 
 
 def streams():
-    return [A.BatStream(), A.PVStream(), A.BatAlgStream(), A.ConcPVStream(), A.ConcBatStream()]
+    return [A.BatStream(), A.PVStream(), A.BatAlgStream(), A.ConcPVStream(), A.ConcBatStream(), A.WiredBatStream()]
 
 
 ASSUMPTIONS = [
